@@ -4,6 +4,7 @@ from __future__ import annotations
 import hashlib
 import random
 import re
+import time
 
 from ..wire import h1
 from ..world.driver import run_case
@@ -119,6 +120,8 @@ def gen(rng, tier):
     for k in range(2 if tier == "quick" else 8):
         yield {"family": "c16:state-across-connections", "kind": "tierb-state", "source": "c16", "backends": ["asyncio", "trio"],
                "lifespan_sets": rng.choice([None, "x"]), "plan": [rng.choice([1, 2, 3]) for _ in range(rng.choice([2, 3]))], "rep": k}
+    for mr in ((1, 3) if tier == "quick" else (1, 2, 3, 5, 8)):
+        yield {"family": "c16:max-requests", "kind": "tierb-maxreq", "source": "c16", "backends": ["asyncio", "trio"], "max_requests": mr}
     yield from _gen_read_timeout(rng, tier)
     yield from _gen_backpressure(rng, tier)
     yield from _gen_sources(rng, tier)
@@ -322,6 +325,54 @@ def _with_seed(case, k):
     return c
 
 
+def _tierb_maxreq(case, tally):
+    """The same sequential session against a worker configured to recycle itself: how many requests are answered before the worker stops
+    taking new connections - and that serve() then returns - is part of "whether and when the server closes", identical on both workers."""
+    from ..world.realnet import ServeHarness, recv_all
+
+    views = {}
+    for be in ("asyncio", "trio"):
+        h = ServeHarness(be, {"graceful_timeout": 0.5, "shutdown_timeout": 0.5, "keep_alive_timeout": 5.0, "max_requests": case["max_requests"],
+                              "max_requests_jitter": 0},
+                         {"lifespan": [["recv"], ["send", {"type": "lifespan.startup.complete"}], ["recv"], ["send", {"type": "lifespan.shutdown.complete"}]],
+                          "default": [["recv_until_end"], ["respond", 200, [(b"content-length", b"2")], b"ok"]]})
+        served = 0
+        try:
+            h.start()
+            h.wait_event(lambda e: e[2] == "app" and e[3] == "send.", 3.0)
+            h.wait_ready()
+            for i in range(case["max_requests"] + 5):
+                if h.done.is_set():
+                    break
+                s = h.connect(timeout=0.5)
+                if s is None:
+                    break
+                try:
+                    s.sendall(b"GET /m%d HTTP/1.1\r\nHost: h\r\nConnection: close\r\n\r\n" % i)
+                    d, _ = recv_all(s, timeout=1.0)
+                    if b" 200" in d[:15]:
+                        served += 1
+                except OSError:
+                    pass
+                finally:
+                    s.close()
+                time.sleep(0.05)  # (the in-process family of C18 does the same: the worker notices between two requests)
+            returned = h.wait_done(4.0)
+        finally:
+            h.close()
+        for e in h.trace.events:
+            tally.events[e[2] + "." + e[3]] += 1
+        started = sum(1 for e in h.trace.events if e[2] == "app" and e[3] == "start" and e[4]["scope"].get("type") == "http")
+        views[be] = (started, returned)
+    tally.clause("compared")
+    tally.clause("maxreq-compared")
+    if views["asyncio"] != views["trio"]:
+        return [{"clause": "compared", "sig": "C16.divergence/c16/max-requests", "backend": "both",
+                 "detail": "max_requests=%d, jitter 0, one request per connection: asyncio took on %d requests (serve returned: %r), trio %d (%r)" % (
+                     case["max_requests"], views["asyncio"][0], views["asyncio"][1], views["trio"][0], views["trio"][1])}], [None]
+    return [], [None]
+
+
 def _tierb_state(case, tally):
     from ..world.realnet import ServeHarness, recv_until
 
@@ -363,6 +414,8 @@ def _tierb_state(case, tally):
 
 
 def run_one(case, tally):
+    if case.get("kind") == "tierb-maxreq":
+        return _tierb_maxreq(case, tally)
     if case.get("kind") == "tierb-state":
         return _tierb_state(case, tally)
     findings, obs_all = [], []
